@@ -1063,6 +1063,22 @@ def oracle_case(ctx, c, o, RN, rng):
                      f"{ex[a][b]} = {float(ex[a][b])}", a=a, b=b, observed=er[a][b],
                      expected=enc_fr(ex[a][b]))
                 return
+    # closeness, average and diameter against their definitions on the exact values
+    for a in range(n):
+        cc = Fr(n - 1) / sum(ex[a])
+        if not close(o["ercc"][a], cc, 4 * tol, 0.0, 0.0):
+            fail("closeness=(N-1)/sum-of-ER",
+                 f"effective_resistance_closeness_centrality({a}) = {o['ercc'][a]}, definition on "
+                 f"the exact effective resistances gives {float(cc)}", a=a, observed=o["ercc"][a],
+                 expected=enc_fr(cc))
+            break
+    avg = 2 * sum(ex[i][j] for i in range(n) for j in range(i)) / Fr(n * (n - 1))
+    if not close(o["avg"], avg, tol, rs, 0.0):
+        fail("average=mean-over-pairs", f"average_effective_resistance() = {o['avg']}, mean of "
+             f"the exact values over all pairs is {float(avg)}", observed=o["avg"])
+    if not close(o["diam"], rs, tol, rs, 0.0):
+        fail("diameter=max-over-pairs", f"diameter_effective_resistance() = {o['diam']}, largest "
+             f"exact value is {rs}", observed=o["diam"])
     # metric laws on the implementation's own output
     for a in range(n):
         if er[a][a] != 0:
